@@ -44,7 +44,7 @@ theorem source_shape_pinned_round3 :
     ∧ C05.visibleAtInit = ["FortranBlockData", "FortranCommon", "FortranModule", "FortranNamelist"]
     ∧ C05.inheritTests = ["var.permission == 'public'", "bp.permission == 'private'"]
     ∧ C05.commonCorrelatePin = "f0f9d51e38f21465" ∧ C05.namelistCorrelatePin = "0e6c9b5eb5f6f79d"
-    ∧ C05.typeCorrelatePin = "ca1fb7d3a9485444"
+    ∧ C05.typeCorrelatePin = "ace6d87c642977db"
     ∧ (C05.visibleInCorrelate = [("FortranBlockData", "typeorder")] ∨ C05.visibleInCorrelate = []) := by decide
 
 /-- Every child list that holds entities with an accessibility is passed through
@@ -275,7 +275,7 @@ theorem link_lookup_pinned :
     ∧ C05.convertLinkDefinedIn = ["_markdown:FordLinkProcessor"]
     ∧ C05.nonListChildren = ["constructor", "procedure", "retvar"]
     ∧ C05.findChildPin = "1b45a2978fe933ee" ∧ C05.findInListPin = "c8d0d02a7c62fd9a"
-    ∧ C05.projectFindPin = "8712be48379dbb74"
+    ∧ C05.projectFindPin = "9b14871416a37053"
     ∧ C05.getUrlPin = "78b107b183a1e8a4" ∧ C05.getDirPin = "3fad1df189b346bf"
     ∧ ((C05.convertLinkPin = "8626d3df74768258" ∧ C05.hasWrittenPagePin = "")
        ∨ (C05.convertLinkPin = "36e31de78f46ca73" ∧ C05.hasWrittenPagePin = "18774cbfbb1007ee")) := by decide
